@@ -12,6 +12,7 @@ package c08
 import (
 	"context"
 	"fmt"
+	"runtime"
 	"sort"
 	"strings"
 	"sync"
@@ -598,6 +599,19 @@ type RaceCase struct {
 }
 
 func runRace(c RaceCase) []ev.Violation {
+	rec.Eval(1)
+	rec.NT(fmt.Sprintf("race|%+v|%d", c.P, c.G))
+	rec.Class("race/" + c.P.Kind)
+	// the window is narrow: every case races 12 freshly tripped breakers
+	for round := 0; round < 12; round++ {
+		if vs := raceOnce(c); len(vs) > 0 {
+			return vs
+		}
+	}
+	return nil
+}
+
+func raceOnce(c RaceCase) []ev.Violation {
 	b, done, err := newBreaker(c.P)
 	if err != nil {
 		rec.Inconclusive(err.Error())
@@ -613,22 +627,28 @@ func runRace(c RaceCase) []ev.Violation {
 	b.Advance(c.P.Timeout + time.Second)
 	var admits int64
 	var wg sync.WaitGroup
-	start := make(chan struct{})
+	var ready sync.WaitGroup
+	var start atomic.Bool
+	spinYield := c.G > runtime.GOMAXPROCS(0)/2 // more callers than cores to spare: they take turns
 	for g := 0; g < c.G; g++ {
 		wg.Add(1)
+		ready.Add(1)
 		go func() {
 			defer wg.Done()
-			<-start
+			ready.Done()
+			for !start.Load() { // spin: all callers leave the gate within nanoseconds of each other
+				if spinYield {
+					runtime.Gosched()
+				}
+			}
 			if b.Ask() {
 				atomic.AddInt64(&admits, 1)
 			}
 		}()
 	}
-	close(start)
+	ready.Wait()
+	start.Store(true)
 	wg.Wait()
-	rec.Eval(1)
-	rec.NT(fmt.Sprintf("race|%+v|%d", c.P, c.G))
-	rec.Class("race/" + c.P.Kind)
 	max := int64(-1)
 	switch c.P.Kind {
 	case "health":
